@@ -11,7 +11,7 @@ use elf::section::SectionHeader;
 use elf::segment::ProgramHeader;
 use elf::ElfBytes;
 
-pub const B: usize = 200;
+pub const B: usize = 144;
 
 #[derive(Clone, Copy, PartialEq)]
 pub enum Case {
@@ -77,7 +77,7 @@ pub fn h1(class: Class, case: Case) {
     match ElfBytes::<AnyEndian>::minimal_parse(data) {
         Ok(f) => {
             assert!(expected_ok);
-            let e = f.ehdr.endianness;
+            let _e = f.ehdr.endianness;
             match f.section_headers() {
                 None => assert!(e_shoff == 0),
                 Some(t) => {
@@ -85,10 +85,14 @@ pub fn h1(class: Class, case: Case) {
                     assert!(t.len() as u64 == shnum);
                     let i: usize = kani::any();
                     if i < t.len() {
-                        let mut off = e_shoff as usize + i * (shes as usize);
-                        let direct = SectionHeader::parse_at(e, class, &mut off, data);
-                        assert!(direct.is_ok());
-                        assert!(t.get(i).ok() == direct.ok());
+                        // entry i is the record at e_shoff + i*entsize: its first and last words are compared with the raw bytes
+                        // (that a record's bytes decode field by field is C02; that get(i) is the record at i*entsize of the table bytes is C09)
+                        let base = e_shoff as usize + i * (shes as usize);
+                        let got = t.get(i);
+                        assert!(got.is_ok());
+                        let got = got.unwrap();
+                        assert!(got.sh_name as u64 == rd(base, 4));
+                        assert!(got.sh_entsize == if is32 { rd(base + 36, 4) } else { rd(base + 56, 8) });
                         kani::cover!(i == 1, "second section header compared");
                     } else {
                         assert!(t.get(i).is_err());
@@ -103,10 +107,10 @@ pub fn h1(class: Class, case: Case) {
                     assert!(t.len() as u64 == phnum);
                     let j: usize = kani::any();
                     if j < t.len() {
-                        let mut off = e_phoff as usize + j * (phes as usize);
-                        let direct = ProgramHeader::parse_at(e, class, &mut off, data);
-                        assert!(direct.is_ok());
-                        assert!(t.get(j).ok() == direct.ok());
+                        let base = e_phoff as usize + j * (phes as usize);
+                        let got = t.get(j);
+                        assert!(got.is_ok());
+                        assert!(got.unwrap().p_type as u64 == rd(base, 4));
                     } else {
                         assert!(t.get(j).is_err());
                     }
